@@ -1,4 +1,5 @@
 import BdModel.Proofs.Sched.Limit
+import BdModel.Sched.Argv
 /-
   C03 — each runnable step runs exactly once; retries are bounded; dry-run runs nothing.
 -/
@@ -45,9 +46,44 @@ example : ((runActs demo (init demo) (attempt false ++ [.retryWake 0] ++ attempt
     attempt true ++ [.tail 0, .teardown 0 true, .deferred 0, .loopExit])).map fun s =>
     ((s.nd 0).status, (s.nd 0).execs, (s.nd 0).retry, s.loop)) = some (.success, 3, 2, .waiting) := by decide
 
+
+/-! ### the command line of retried attempts (node.go `setupExec`, fix d91a64b; finding F12) -/
+section argv
+open BdModel.Argv
+
+theorem runs_fixed (s : StepCmd) (persisted : List Nat) (hp : persisted = s.args) (sfs : List Nat) :
+    Argv.runs Argv.attempt s persisted sfs =
+      sfs.map (fun sf => s.cmd :: (if s.script then s.args ++ [sf] else s.args)) := by
+  induction sfs generalizing persisted with
+  | nil => rfl
+  | cons sf rest ih =>
+    subst hp
+    simp only [Argv.runs, Argv.attempt, List.map_cons]
+    cases s.strForm <;> simp [ih]
+
+/-- **C03 (every attempt runs the step's own command).** For every step (string form or argument
+    list, with or without `script:`) and any number of attempts, attempt k is started with exactly the
+    command and arguments of the definition, followed by ITS OWN script file and nothing else — so a
+    retry re-executes the same command and can succeed. -/
+theorem C03_argv (s : StepCmd) (sfs : List Nat) :
+    Argv.runs Argv.attempt s s.args sfs = sfs.map (fun sf => s.cmd :: (if s.script then s.args ++ [sf] else s.args)) :=
+  runs_fixed s s.args rfl sfs
+
+/-- on the pinned tree an argument-list step with `script:` handed attempt 2 the (removed) script of
+    attempt 1 as well: `sh <script 1> <script 2>` — the retry could never succeed (F12) -/
+theorem C03_argv_pinned_refuted :
+    Argv.runs Argv.attemptPinned { cmd := 0, args := [], strForm := false, script := true } [] [101, 102] = [[0, 101], [0, 101, 102]] := by
+  decide
+
+example : Argv.runs Argv.attempt { cmd := 0, args := [], strForm := false, script := true } [] [101, 102] = [[0, 101], [0, 102]] := by decide
+
+end argv
+
 end BdModel.P03
 
 #print axioms BdModel.P03.C03_execs
 #print axioms BdModel.P03.C03_bounded
 #print axioms BdModel.P03.C03_final
 #print axioms BdModel.P03.C03_dry
+#print axioms BdModel.P03.C03_argv
+#print axioms BdModel.P03.C03_argv_pinned_refuted
